@@ -2,10 +2,13 @@
 package bsim
 
 import (
+	"bytes"
 	"crypto/sha256"
 	"encoding/hex"
+	"encoding/json"
 	"fmt"
 	"os"
+	"os/exec"
 	"path/filepath"
 	"runtime/debug"
 	"sort"
@@ -243,8 +246,55 @@ var CaseDigest string
 // HangBudget bounds one simulated build.
 var HangBudget = 120 * time.Second
 
+// Isolate makes every Exec run in a process of its own (used for replays): a divergence that
+// only exists because several builds shared one process (package-level state of the tool) is not
+// a divergence of the command-line tool, whose every run is a fresh process.
+var Isolate bool
+
+type wireResult struct {
+	R    *Result `json:"r"`
+	Data string  `json:"data"`
+}
+
+func execIsolated(w *World) *Result {
+	exe, err := os.Executable()
+	if err != nil {
+		panic(err)
+	}
+	in, _ := json.Marshal(w)
+	cmd := exec.Command(exe, "exec1")
+	cmd.Stdin = bytes.NewReader(in)
+	var out, errb bytes.Buffer
+	cmd.Stdout, cmd.Stderr = &out, &errb
+	if err := cmd.Run(); err != nil {
+		panic(fmt.Sprintf("isolated execution failed: %v\n%s", err, errb.String()))
+	}
+	var wr wireResult
+	if err := json.Unmarshal(out.Bytes(), &wr); err != nil {
+		panic(fmt.Sprintf("isolated execution: bad result: %v\n%s", err, out.String()))
+	}
+	wr.R.Out.Data = wr.Data
+	CaseDigest = shaStr(CaseDigest + digest(wr.R) + fmt.Sprint(len(wr.R.Ops), len(wr.R.Fired)))
+	return wr.R
+}
+
+// Exec1 is the child side of execIsolated.
+func Exec1(t Target) {
+	var w World
+	if err := json.NewDecoder(os.Stdin).Decode(&w); err != nil {
+		fmt.Fprintln(os.Stderr, err)
+		os.Exit(2)
+	}
+	r := Exec(t, &w)
+	b, _ := json.Marshal(wireResult{R: r, Data: r.Out.Data})
+	os.Stdout.Write(b)
+}
+
 // Exec runs the build command once in world w.
 func Exec(t Target, w *World) *Result {
+	if Isolate {
+		return execIsolated(w)
+	}
 	initBase()
 	runCounter++
 	top := filepath.Join(baseDir, fmt.Sprintf("r%d", runCounter))
